@@ -47,6 +47,7 @@ var c17Idx = func() (t [256]int8) {
 	}
 	for i := 0; i < len(c17AAs); i++ {
 		t[c17AAs[i]] = int8(i)
+		t[c17AAs[i]+32] = int8(i) // a residue is the same amino acid in lower case
 	}
 	return
 }()
@@ -280,7 +281,7 @@ func c17SameF(a, b []c17Cell) bool {
 // c17Differs: the pair has an unambiguous difference in some column.
 func c17Differs(a, b string) bool {
 	for l := 0; l < len(a); l++ {
-		if c17Unamb(a[l]) && c17Unamb(b[l]) && a[l] != b[l] {
+		if c17Unamb(a[l]) && c17Unamb(b[l]) && c17Idx[a[l]] != c17Idx[b[l]] {
 			return true
 		}
 	}
@@ -480,6 +481,9 @@ func (k *c17Checker) single(r *c17Res) {
 	}
 	var eig *c17Eig
 	nontrivial := false
+	if !cs.ModelFreqs && r.pi != nil {
+		k.frequenciesFollowCounts(r)
+	}
 	for i := 0; i < n; i++ {
 		if x := r.d[i][i]; math.IsNaN(x) || math.Abs(x) > c17Zero {
 			k.viol("diagonal", "diagonal entry is not 0: "+at(i, i))
@@ -622,6 +626,56 @@ func (k *c17Checker) single(r *c17Res) {
 }
 
 // ---- permutations
+
+// frequenciesFollowCounts: how "empirical frequencies" are estimated (pseudo-counts, share given to
+// ambiguous residues) is not fixed by the statement, but they are the frequencies of the amino acids in
+// the columns taken into account: two amino acids with the same (weighted) count have the same
+// frequency, and a larger count never gives a smaller frequency.  Counts are taken under both readings
+// of gap-site removal; a violation needs both to disagree with the model's frequencies.
+func (k *c17Checker) frequenciesFollowCounts(r *c17Res) {
+	var problems []string
+	for _, wide := range []bool{false, true} {
+		if wide && !k.cs.RmGaps {
+			break
+		}
+		sel := c17Selected(r.seqs, k.cs.RmGaps, wide)
+		var cnt [20]float64
+		tot := 0.0
+		for _, s := range r.seqs {
+			for l := 0; l < len(s); l++ {
+				if sel[l] && c17Unamb(s[l]) {
+					x := 1.0
+					if r.w != nil {
+						x = r.w[l]
+					}
+					cnt[c17Idx[s[l]]] += x
+					tot += x
+				}
+			}
+		}
+		problem := ""
+		tol := 1e-9 * math.Max(1, tot)
+	scan:
+		for a := 0; a < 20; a++ {
+			for b := 0; b < 20; b++ {
+				switch {
+				case math.Abs(cnt[a]-cnt[b]) <= tol && math.Abs(r.pi[a]-r.pi[b]) > 1e-9:
+					problem = fmt.Sprintf("%c and %c both count %g but have frequencies %.12g and %.12g", c17AAs[a], c17AAs[b], cnt[a], r.pi[a], r.pi[b])
+					break scan
+				case cnt[a] > cnt[b]+tol && r.pi[a] < r.pi[b]-1e-12:
+					problem = fmt.Sprintf("%c counts %g, %c counts %g, but their frequencies are %.12g and %.12g", c17AAs[a], cnt[a], c17AAs[b], cnt[b], r.pi[a], r.pi[b])
+					break scan
+				}
+			}
+		}
+		if problem == "" {
+			k.c.Outcome("empirical-frequencies-follow-counts")
+			return
+		}
+		problems = append(problems, problem)
+	}
+	k.viol("empirical-frequencies-do-not-follow-counts", fmt.Sprintf("%s: rows %v weights %v", strings.Join(problems, " / "), r.seqs, r.w))
+}
 
 func c17IsIdentity(p []int) bool {
 	for i, x := range p {
@@ -1038,6 +1092,24 @@ func c17Tasks(tier string) []mc.Task {
 			}
 		}})
 	}
+	// lower-case residues (soft-masked regions, files written in lower case): every 2x3 alignment over {A,a,r}
+	for _, model := range c17Models {
+		model := model
+		ts = append(ts, mc.Task{Name: fmt.Sprintf("lowercase#%s", c17ModelNames[model]), Run: func(c *mc.Ctx) {
+			for _, mf := range []bool{true, false} {
+				for _, ga := range c17Alphas {
+					if ga != 0 && ga != 0.5 && tier != "thorough" {
+						continue
+					}
+					cfg := c17Case{Model: model, ModelFreqs: mf, Alpha: ga}
+					forEachAlignment("Aar", 2, 3, func(seqs []string) bool {
+						c17Orbit(c, cfg, seqs, false)
+						return !c.Expired()
+					})
+				}
+			}
+		}})
+	}
 	// weights together with gap-site removal on three columns: a removed column in front of columns of
 	// different weights (the weight of a column travels with the column, not with its rank among the kept ones)
 	for _, model := range c17Models {
@@ -1140,7 +1212,7 @@ func init() {
 	mc.Register(&mc.Prop{
 		ID:    "C17",
 		Level: "exploration",
-		Rule: "(on every case with gap-site removal on and a removable column: the matrix equals the one of the alignment with those columns deleted, removal off; also: all 2x3 alignments over {A,R,-} computed by a model object that first served the column-reversed alignment; all 2x3 alignments over {A,R,-} holding a gap, gap-site removal on, weights = every arrangement of (1,2,3); all 2x2 alignments over {A,R,W} computed after another model object of the same matrix, with the other and then the same frequency setting, served on skewed data;) bounded-exhaustive enumeration of protein.NewProtDistModel + InitModel + MLDist on a lattice. Configurations: all 7 empirical models (LG, JTT, WAG, Dayhoff, MtREV, HIVb, AB) x {model, empirical} frequencies x gamma {off, alpha 0.5, 1, 2} x gap-site removal {off, on}. " +
+		Rule: "(on every case with gap-site removal on and a removable column: the matrix equals the one of the alignment with those columns deleted, removal off; also: all 2x3 alignments over {A,R,-} computed by a model object that first served the column-reversed alignment; all 2x3 alignments over {A,R,-} holding a gap, gap-site removal on, weights = every arrangement of (1,2,3); all 2x2 alignments over {A,R,W} computed after another model object of the same matrix, with the other and then the same frequency setting, served on skewed data; the 20 amino acids once each with the L column weighing 19000 (thorough also 1999) sites followed by every pair of columns over {L,A,R}, empirical frequencies (composition dominated by one amino acid: eigen values of the scaled rate matrix far below -745; cells of the pair table below 0.1% of the weight); every 2x3 alignment over {A,a,r} (lower-case residues are the same amino acids); with empirical frequencies the frequencies the model ends up with follow the weighted counts of the columns taken into account - equal counts, equal frequencies; larger count, frequency not smaller;) bounded-exhaustive enumeration of protein.NewProtDistModel + InitModel + MLDist on a lattice. Configurations: all 7 empirical models (LG, JTT, WAG, Dayhoff, MtREV, HIVb, AB) x {model, empirical} frequencies x gamma {off, alpha 0.5, 1, 2} x gap-site removal {off, on}. " +
 			"Inputs, quick tier: every alignment of " + c17BoundText("quick") + ". Thorough tier: " + c17BoundText("thorough") + ". " +
 			"Every input is executed once (a fresh model per execution) and its matrix is compared with the matrix of its smallest row/column rearrangement, so that every row order and every column order (weights travelling with their columns) of every alignment is covered; symmetries of an alignment (equal rows, equal columns) are checked on its own matrix. " +
 			"Clauses per matrix: square of the right size, no NaN, |d_ii| <= 1e-6, |d_ij - d_ji| <= 1e-6, 0 <= d_ij <= 20 (exact), d_ij <= 1e-6 when no column holds two different unambiguous residues, " +
